@@ -628,6 +628,10 @@ def mon_c14(ix: Index):  # noqa: C901, PLR0912
                 out.append(V("C14", "C14/%s-result-not-delivered-payload" % ok_, "%s returned %s, external party delivered %r" % (path, str(e.get("val"))[:80], str(raw)[:80]), e["i"]))
         elif k == "exc" and ok_ in ("cb", "invoke"):
             mro = e.get("mro") or []
+            if e.get("st") == "SUCCEEDED" and e.get("phase") != "create" and "InvocationError" not in mro and mro and mro[0] != "BaseException":
+                n += 1
+                out.append(V("C14", "C14/%s-succeeded-but-call-raised/%s" % (ok_, e["cls"]), "%s is SUCCEEDED in the backend but the call raised %s: %s" % (path, e["cls"], str(e.get("msg"))[:80]), e["i"]))
+                continue
             if ok_ == "cb":
                 if e["cls"] == "CallbackError":
                     n += 1
@@ -1030,16 +1034,24 @@ def mon_c16(ix: Index):  # noqa: C901, PLR0912
             continue
         import json as _json
 
-        size = len(_json.dumps(v))
+        size = len(_json.dumps(v, ensure_ascii=False).encode("utf-8", "surrogatepass"))  # what the Lambda runtime would send
         er = e.get("exec_result")
         if v.get("Status") in ("SUCCEEDED", "FAILED"):
             n += 1
             if size > RESP_LIMIT + 200:
-                out.append(V("C16", "C16/response-over-lambda-limit", "handler returned %d bytes" % size, e["i"]))
+                inner = v.get("Result") if v.get("Status") == "SUCCEEDED" else _json.dumps(v.get("Error") or {}, ensure_ascii=False)
+                inner = inner or ""
+                if len(inner) > RESP_LIMIT:
+                    why = "payload-itself-over-limit"
+                elif len(inner.encode("utf-8", "surrogatepass")) > len(inner):
+                    why = "non-ascii-payload-counted-in-characters"
+                else:
+                    why = "escape-doubling-when-the-response-is-encoded"
+                out.append(V("C16", "C16/response-over-lambda-limit/%s" % why, "handler returned %d bytes (payload text %d characters)" % (size, len(inner)), e["i"]))
             if v.get("Status") == "SUCCEEDED" and v.get("Result") == "" and not (er and er["action"] == "SUCCEED" and er.get("payload")):
                 out.append(V("C16", "C16/empty-result-without-recorded-payload", "SUCCEEDED with empty Result but no EXECUTION SUCCEED payload", e["i"]))
             ret = ix.prog.get("ret") or {}
-            if v.get("Status") == "SUCCEEDED" and "big" in ret:
+            if v.get("Status") == "SUCCEEDED" and "big" in ret and len(ret.get("ch", "x").encode("utf-8")) == 1:
                 full = ret["big"] + 2
                 if full > RESP_LIMIT and v.get("Result") != "":
                     out.append(V("C16", "C16/oversized-final-result-returned-inline", "result of %d bytes returned in the response" % full, e["i"]))
